@@ -16,6 +16,7 @@ import json
 import os
 import random
 import runpy
+import shutil
 import subprocess as _subprocess_mod
 import sys
 import threading
@@ -712,6 +713,12 @@ class Sim:
             "datetime": _datetime_mod.datetime,
             "date": _datetime_mod.date,
             "time": _time_mod.time,
+            "localtime": _time_mod.localtime,
+            "gmtime": _time_mod.gmtime,
+            "strftime": _time_mod.strftime,
+            "dunder_stdout": sys.__stdout__,
+            "os_write": os.write,
+            "which": shutil.which,
         }
         self.real_listdir = os.listdir
         self.real_scandir = os.scandir
@@ -785,6 +792,37 @@ class Sim:
             _datetime_mod.date = SimDate
             epoch = saved["datetime"](1970, 1, 1)
             _time_mod.time = lambda: (sim.now() - epoch).total_seconds()
+
+            def sim_localtime(secs=None):
+                return saved["localtime"](secs) if secs is not None else sim.now().timetuple()
+
+            def sim_gmtime(secs=None):
+                return saved["gmtime"](secs) if secs is not None else sim.now().timetuple()
+
+            def sim_strftime(fmt, t=None):
+                return saved["strftime"](fmt, t if t is not None else sim.now().timetuple())
+
+            _time_mod.localtime = sim_localtime
+            _time_mod.gmtime = sim_gmtime
+            _time_mod.strftime = sim_strftime
+            # every road to fd 1 leads to the simulated device
+            sys.__stdout__ = out
+
+            def sim_os_write(fd, data):
+                if fd == 1:
+                    return raw.write(data)
+                return saved["os_write"](fd, data)
+
+            os.write = sim_os_write
+
+            def sim_which(cmd, *a, **kw):
+                # coherent with the planned git outcome: a machine without git has no git on PATH
+                if os.path.basename(str(cmd)) == "git" and env.get("git") == "enoent":
+                    sim.log("which", cmd=str(cmd), found=False)
+                    return None
+                return saved["which"](cmd, *a, **kw)
+
+            shutil.which = sim_which
             sys.settrace(self.tracer)
             try:
                 runpy.run_path(self.tool_filename, run_name="__main__")
@@ -825,6 +863,12 @@ class Sim:
         finally:
             sys.settrace(None)
             _time_mod.time = saved["time"]
+            _time_mod.localtime = saved["localtime"]
+            _time_mod.gmtime = saved["gmtime"]
+            _time_mod.strftime = saved["strftime"]
+            sys.__stdout__ = saved["dunder_stdout"]
+            os.write = saved["os_write"]
+            shutil.which = saved["which"]
             _datetime_mod.date = saved["date"]
             _datetime_mod.datetime = saved["datetime"]
             _subprocess_mod.Popen = saved["Popen"]
